@@ -345,6 +345,25 @@ def oracle(ctx):
                           finding='D-04a' if (r.get('out') == out and r.get('log') == like) else None)
     from chameleon import PageTemplate
     nt = 0
+    # `default_expression` is a setting of the template *instance*: templates of one class with different settings, compiled one
+    # after the other in this process (which has compiled templates with the default setting before), each dispatch their
+    # unprefixed expressions to their own default type
+    DE = [({}, '<p tal:content="n + 1">x</p>', '<p>2</p>'),
+          ({'default_expression': 'string'}, '<p tal:content="Hello ${python: n}!">x</p>', '<p>Hello 1!</p>'),
+          ({}, '<p title="${n + 2}" tal:content="python: n">x</p>', '<p title="3">1</p>'),
+          ({'default_expression': 'string'}, '<p tal:content="n + 2">x</p>', '<p>n + 2</p>'),
+          ({'default_expression': 'python'}, '<p tal:content="n + 3">x</p>', '<p>4</p>'),
+          ({'default_expression': 'string'}, '<p tal:define="a n + 4" tal:content="python: a">x</p>', '<p>n + 4</p>'),
+          ({}, '<p tal:content="string:n + 5">x</p><i tal:condition="not: n - 1">y</i>', '<p>n + 5</p><i>y</i>')]
+    for cfg, src, want in DE + DE[::-1]:
+        ctx.count('evaluations')
+        try:
+            got = PageTemplate(src, **cfg)(n=1)
+        except Exception as e:
+            got = 'raised %s: %s' % (type(e).__name__, str(e).split('\n')[0][:80])
+        if got != want:
+            ctx.violation('an unprefixed expression is not evaluated by the template\'s own default expression type', {'src': src, 'config': cfg, 'n': 1},
+                          expected=want, actual=got)
     # pipes: first alternative that does not raise a lookup-type exception; others propagate; evaluated once, in order
     for _ in range(ctx.budget(600, 20000)):
         k3 = ctx.rng.random()
